@@ -364,9 +364,15 @@ func (sc *stopScenario) run(kind, spec string) *stopRun {
 		if (wantIdx >= 0 && count == wantIdx && !stopNoise(ev)) || (wantSub != "" && strings.Contains(ev, wantSub) && subSeen == wantNth) {
 			deliver(ev)
 			if strings.HasPrefix(ev, "open ") {
-				// the opener is held while the stop request reaches the broker's flags: the worker is then in
-				// the middle of its batch when it next looks at them
-				time.Sleep(40 * time.Millisecond)
+				// the opener is held until the stop request has reached the broker's flags (on a loaded machine that
+				// can take a while): the worker is then in the middle of its batch when it next looks at them
+				for t0 := time.Now(); time.Since(t0) < 5*time.Second; time.Sleep(2 * time.Millisecond) {
+					if b := r.broker; b != nil {
+						if st, _ := b.VerifStopRequested(); st {
+							break
+						}
+					}
+				}
 			}
 		}
 	}
